@@ -173,7 +173,8 @@ def build_groups(rec, tabs):
             g = groups[('c', k)] = ({'kind': 'composite', 'd': {'usage': d['usage'], 'kids': [defs.tla_elem(x) for x in d['kids']]},
                                      'cases': []}, [], d)
         for out in sorted(rec['crecs'][key]):
-            res, codes, exc = out
+            res, codes, exc = out[:3]
+            cc = out[3] if len(out) > 3 else ()
             comps = []
             for i, v in enumerate(vals or ()):
                 if i < len(d['kids']):
@@ -181,7 +182,7 @@ def build_groups(rec, tabs):
                 else:
                     comps.append({'s': v, 'cp': vlib.codes(v), 'n': len(v), 'ext': False, 'rx': False})
             g[0]['cases'].append({'absent': vals is None, 'comps': comps, 'cs': cs, 'excl': [bool(x) for x in excl],
-                                  'res': res, 'codes': list(codes)})
+                                  'res': res, 'codes': list(codes), 'cc': [[c_, int(k_)] for (c_, k_) in cc]})
             g[1].append({'origin': rec['crecs'][key][out], 'exc': exc, 'value': None if vals is None else list(vals), 'key': key})
     return [groups[k] for k in sorted(groups)]
 
@@ -435,9 +436,9 @@ def gen_composite(world, c, sigs, rec):
     node, param = world.node(f, False, si, ci)
     param.set('charset', c['cs'])
     vals = None if c['ab'] == 1 else list(c['l'])
-    out = runner.observe(node, runner.composite_data(vals))
+    out = runner.observe(node, runner.composite_data(vals), with_comp=True)
     k = sigs(('c', f, si, ci), d)
-    runner.Recorder.put(rec['crecs'], (k, None if vals is None else tuple(vals), c['cs'], tuple(False for _ in d['kids'])), out[:3],
+    runner.Recorder.put(rec['crecs'], (k, None if vals is None else tuple(vals), c['cs'], tuple(False for _ in d['kids'])), out[:3] + (out[4],),
                         ('gen', f, 0, si, ci))
     return out
 
@@ -484,7 +485,10 @@ def generate_and_replay(chk, tier):
         rejected, stat, nrej = validate(chk, groups, 'T_ElemValid generated', cap=2)
         if stat['cases'] != len(cases):
             raise vlib.MachineryError('generated cases: %d replayed, %d validated' % (len(cases), stat['cases']))
-        if nrej != nbad:
+        # component_missed (a component's own error hidden by another component's) is judged by T_ElemValid only: the generator's
+        # admissible report sets are per composite, not per component
+        only_tv = any(r[2] == 'component_missed' for r in rejected)
+        if nrej < nbad or (nrej > nbad and not only_tv):
             raise vlib.MachineryError('generated cases: %d replays leave the admissible reports ElemValidGen emitted but T_ElemValid rejects %d: '
                                       'the two uses of the definition disagree' % (nbad, nrej))
         report(chk, groups, rejected, [None, world.excl_all], 'generated case', world=world, classes=(eclasses, cclasses))
